@@ -16,7 +16,11 @@ def canon(v):
     if isinstance(v, str):
         return ['s', v]
     if isinstance(v, (bytes, bytearray, memoryview)):
-        return ['b', bytes(v).hex()]
+        b = bytes(v)
+        if len(b) > 4096:
+            import hashlib
+            return ['b#', len(b), hashlib.sha1(b).hexdigest()]
+        return ['b', b.hex()]
     if isinstance(v, decimal.Decimal):
         return ['dec', str(v.as_tuple())]
     if isinstance(v, uuid.UUID):
@@ -60,9 +64,18 @@ def main():
                 t = T.lookup_casstype(c['type'])
                 r = canon(t.from_binary(bytes.fromhex(c['bytes']), c['pv']))
             elif k == 'rows':
-                msg = P.ProtocolHandler.decode_message(c['pv'], {}, 0, 0, 8, bytes.fromhex(c['body']), None, None)
-                r = {'names': list(msg.column_names), 'types': [t.cass_parameterized_type() for t in msg.column_types],
-                     'rows': [[canon(x) for x in row] for row in msg.parsed_rows], 'paging_state': canon(msg.paging_state)}
+                H0 = P.ProtocolHandler
+                if c.get('handler') == 'lazy':      # compiled build: LazyParser; pure build: the one pure decoder
+                    H0 = getattr(P, 'LazyProtocolHandler', None) or P.ProtocolHandler
+                msg = H0.decode_message(c['pv'], {}, 0, 0, 8, bytes.fromhex(c['body']), None, None)
+                msg.parsed_rows = list(msg.parsed_rows)
+                if c.get('digest_rows'):
+                    import hashlib
+                    r = {'names': list(msg.column_names), 'nrows': len(msg.parsed_rows),
+                         'digest': hashlib.sha1(json.dumps([[canon(x) for x in row] for row in msg.parsed_rows]).encode()).hexdigest()}
+                else:
+                    r = {'names': list(msg.column_names), 'types': [t.cass_parameterized_type() for t in msg.column_types],
+                         'rows': [[canon(x) for x in row] for row in msg.parsed_rows], 'paging_state': canon(msg.paging_state)}
             elif k == 'ce_rows':
                 # RESULT rows with an encrypted column: the policy is a class attribute of the protocol handler
                 from cassandra.policies import ColDesc
